@@ -8,6 +8,10 @@
 //! Request: `<input> <world|-> <decl>*`   decl = `I:<hexmod>:<hexname>:<params>:<results>`
 //!                                              | `E:<hexname>:<params>:<results>`     (types: i32,i64,f32,f64 or `-`)
 //! Answer:  `ok <bytes>` | `err <hex message>` | `panic <hex message>` | `bad-request <why>`
+//!
+//! Request: `ignored <input> <world|-> <decl>*` → `ok <hexname>*`: the declared function exports that the
+//! encoded component never references (no `alias core export … "<name>"` in the component), i.e. the
+//! exports the encoder silently ignores.
 use crate::gen::*;
 use wasm_encoder::*;
 
@@ -93,8 +97,78 @@ pub fn build_module(decls: &[&str]) -> Result<Vec<u8>, String> {
     Ok(module.finish())
 }
 
+fn encode(resolve: &wit_parser::Resolve, world: wit_parser::WorldId, decls: &[&str]) -> Result<Vec<u8>, String> {
+    let mut bytes = build_module(decls)?;
+    let r = std::panic::catch_unwind(std::panic::AssertUnwindSafe(|| -> anyhow::Result<Vec<u8>> {
+        wit_component::embed_component_metadata(&mut bytes, resolve, world, wit_component::StringEncoding::UTF8)?;
+        wit_component::ComponentEncoder::default().module(&bytes)?.validate(true).encode()
+    }));
+    match r {
+        Ok(Ok(c)) => Ok(c),
+        Ok(Err(e)) => Err(format!("{e:#}")),
+        Err(e) => Err(panic_msg(e)),
+    }
+}
+
+/// names of the core exports the component actually uses (`alias core export <instance> "<name>"`)
+fn used_core_exports(component: &[u8]) -> anyhow::Result<std::collections::BTreeSet<String>> {
+    let mut used = std::collections::BTreeSet::new();
+    for payload in wasmparser::Parser::new(0).parse_all(component) {
+        match payload? {
+            wasmparser::Payload::ComponentAliasSection(s) => {
+                for a in s {
+                    if let wasmparser::ComponentAlias::CoreInstanceExport { name, .. } = a? {
+                        used.insert(name.to_string());
+                    }
+                }
+            }
+            // nested modules / components are skipped by `parse_all` only if we do not descend:
+            wasmparser::Payload::ModuleSection { unchecked_range, .. } => {
+                let _ = unchecked_range;
+            }
+            _ => {}
+        }
+    }
+    Ok(used)
+}
+
+fn ignored(toks: &[&str]) -> String {
+    if toks.len() < 2 {
+        return "bad-request arity".into();
+    }
+    let (resolve, world) = match load(toks[0], toks[1]) {
+        Ok(x) => x,
+        Err(e) => return format!("bad-request {}", hex(&format!("{e:#}"))),
+    };
+    let decls = &toks[2..];
+    let full = match encode(&resolve, world, decls) {
+        Ok(c) => c,
+        Err(e) => return format!("err {}", hex(&e)),
+    };
+    let used = match used_core_exports(&full) {
+        Ok(u) => u,
+        Err(e) => return format!("err {}", hex(&format!("{e:#}"))),
+    };
+    let mut out = String::from("ok");
+    for d in decls.iter() {
+        if !d.starts_with("E:") {
+            continue;
+        }
+        let h = d.split(':').nth(1).unwrap();
+        let name = unhex(h).unwrap_or_default();
+        if !used.contains(&name) {
+            out.push(' ');
+            out.push_str(h);
+        }
+    }
+    out
+}
+
 pub fn handle(line: &str) -> String {
     let toks: Vec<&str> = line.split(' ').filter(|t| !t.is_empty()).collect();
+    if toks.first() == Some(&"ignored") {
+        return ignored(&toks[1..]);
+    }
     if toks.len() < 2 {
         return "bad-request arity".into();
     }
